@@ -52,7 +52,21 @@ Theorem C15_optional_only_ype :
     clean_or_mut (snd (get_optional lit re_search nstr vstr kw_handler creator p d)).
 Proof. exact (optional_only_ype lit re_search nstr vstr kw_handler creator lit_total re_total kw_ok creator_ok). Qed.
 
+(* The node-creating branches (the parameter [creator]) are reached only with a tail that can be built: since fix
+   45f1b07 (Nodes.require_buildable_path) a missing ANCHOR / INDEX / KEY element whose path goes on with anything
+   but Hash keys and non-negative Array indexes -- counted from the segment itself when the data is a null, which
+   is replaced by a new container -- is a YAMLPathException raised BEFORE anything is built, whatever the creator
+   would do.  (Before the repair Nodes.build_next_node handed back the default value for such a segment: it was
+   stored at the first missing element and the rest of the path evaluated inside it -- findings F-C11-5.) *)
+Theorem C15_unbuildable_tail_refused :
+  forall (segs : list pseg) (i : nat) (ps : pseg) (v : rval) (c : ctx),
+    is_ty TAnchor (fst (seg_us ps)) || is_ty TIndex (fst (seg_us ps)) || is_ty TKey (fst (seg_us ps)) = true ->
+    buildable_tail segs (match v with RNode (NLeaf _ PNone) => i | _ => S i end) = false ->
+    missing_element creator segs i ps v c = gerr (YPE Generic).
+Proof. exact (missing_element_unbuildable creator). Qed.
+
 End Statements.
+Print Assumptions C15_unbuildable_tail_refused.
 Print Assumptions C15_required_only_ype.
 Print Assumptions C15_exists_only_ype.
 Print Assumptions C15_optional_only_ype.
@@ -257,6 +271,26 @@ Example C15_bracket_collector_refused :
     end.
 Proof.
   intros text H; repeat (destruct H as [<-|H]; [vm_compute; repeat split; reflexivity|]); destruct H.
+Qed.
+
+(* Finding F-C11-5 (C11 / C09), repaired (fix 45f1b07): over {a: 1, b: 2} the optional query of a path whose key x
+   is missing and which goes on with a wildcard, a traversal, a search, a keyword search, a slice, an anchor, a
+   collector or a negative index ends in a YAML Path error and never reaches the creator (it used to: x was given
+   the default value and the rest of the path was evaluated inside that value); a.x.* likewise one level down;
+   x.y and x[1] are still built (the creator's mutation), and b.* over the existing scalar b selects nothing *)
+Definition cr_mut (_ : list pseg) (_ : nat) (_ : rval) (_ : ctx) : gen rval := ([], Mut 0%N PNone).
+Definition run_opt (text : string) (d : node) : outcome stop :=
+  do p <- prepare (S (S (String.length text))) text;
+  Ok (snd (get_optional lit0 re0 nstr0 vstr0 kw0 cr_mut p d)).
+
+Example C15_unbuildable_tail_examples :
+  (forall text, In text ["x.*"; "x.**"; "x[.=1]"; "x[max()]"; "x[0:2]"; "x[&q]"; "x(a)+(b)"; "x[-1]"; "x.y[0].*"; "/x/y/*"] ->
+     run_opt text doc_ab = Ok (Err (YPE Generic))) /\
+  run_opt "x.y" doc_ab = Ok (Mut 0%N PNone) /\ run_opt "x[1]" doc_ab = Ok (Mut 0%N PNone) /\
+  run_opt "b.*" doc_ab = Ok Done.
+Proof.
+  split; [|vm_compute; repeat split; reflexivity].
+  intros text H; repeat (destruct H as [<-|H]; [vm_compute; reflexivity|]); destruct H.
 Qed.
 
 (* Non-vacuity: the fragment contains non-trivial parsed paths, and they select nodes. *)
